@@ -1301,8 +1301,132 @@ def _scale_cases(thorough):
     return out
 
 
+# --------------------------------------------------------------------------
+# family normalize: the `normalize=True` option.  The normalised values are
+# not dyadic, so the exact oracle of `rp` does not apply; instead
+#   (1) the stored series is the caller's series with zero mean and unit
+#       standard deviation per component (constant components: centred),
+#   (2) the state vectors are the delay embedding of THAT series,
+#   (3) R is the thresholded distance matrix of THOSE state vectors (float64
+#       evaluation of the metric on the stored float32 states; pairs within
+#       1e-5 of the threshold are not judged),
+#   (4) the caller's array is untouched,
+# for plots, networks and the rate / local-rate constructions.
+
+NORM_SERIES = {
+    "scalar": [0.5, 2.25, -1.0, 3.5, 0.75, 2.0, -0.25, 1.5, 4.0, 0.0, 1.25],
+    "two": [[0.5, 10.0], [2.25, 12.5], [-1.0, 11.0], [3.5, 9.0],
+            [0.75, 10.5], [2.0, 13.0], [-0.25, 8.5], [1.5, 10.25],
+            [4.0, 12.0]],
+    "const-component": [[1.0, 7.0], [2.0, 7.0], [4.0, 7.0], [3.0, 7.0],
+                        [0.5, 7.0], [2.5, 7.0], [1.5, 7.0]],
+    "offset": [1000.0 + v for v in (0.5, 2.25, -1.0, 3.5, 0.75, 2.0, -0.25,
+                                    1.5, 4.0, 0.0)],
+}
+
+
+def _metric_dist(E, metric):
+    d = np.abs(E[:, None, :].astype(float) - E[None, :, :].astype(float))
+    if metric == "manhattan":
+        return d.sum(axis=2)
+    if metric == "euclidean":
+        return np.sqrt((d ** 2).sum(axis=2))
+    return d.max(axis=2)
+
+
+def fam_normalize(case):
+    name, emb, metric = case
+    acc = Acc()
+    x = np.array(NORM_SERIES[name], dtype=float)
+    x0 = x.copy()
+    kw = {"normalize": True}
+    if emb:
+        kw.update(dim=emb[0], tau=emb[1])
+    cols = x.reshape(len(x), -1)
+    std = cols.std(axis=0)
+    want = (cols - cols.mean(axis=0)) / np.where(std == 0, 1.0, std)
+    if emb:
+        n = len(x) - (emb[0] - 1) * emb[1]
+        wantE = np.stack([want[k * emb[1]:k * emb[1] + n, 0]
+                          for k in range(emb[0])], axis=1)
+    else:
+        wantE = want
+    tag = name + ("+emb" if emb else "")
+    pars = [("threshold", {"threshold": t}) for t in (0.5, 1.25, 3.0)] + [
+        ("recurrence_rate", {"recurrence_rate": 0.3}),
+        ("local_recurrence_rate", {"local_recurrence_rate": 0.4})]
+    for cls in ("RecurrencePlot", "RecurrenceNetwork"):
+        for variant, par in pars:
+            acc.evals += 1
+            try:
+                rp = _mk_rp(cls, x, metric, kw, **par)
+            except Exception as e:   # noqa
+                acc.v("%s.__init__:raises:normalize" % cls, _exc(e), _exc(e),
+                      "an object")
+                continue
+            if not np.array_equal(x, x0):
+                acc.v("%s.__init__:modifies-input:normalize" % cls,
+                      "the caller's series was normalised in place", x, x0)
+                x[...] = x0
+            ts_ = np.asarray(rp.time_series, dtype=float)
+            if ts_.shape != want.shape or not np.allclose(ts_, want,
+                                                          atol=2e-5, rtol=0):
+                acc.v("%s.time_series:value:normalize" % cls,
+                      "stored series is not (x - mean) / std per component "
+                      "(%s)" % tag, ts_, want)
+                continue
+            E = np.asarray(rp.embedding, dtype=float)
+            if E.shape != wantE.shape or not np.allclose(E, wantE, atol=2e-5,
+                                                         rtol=0):
+                acc.v("%s.embedding:value:normalize" % cls,
+                      "state vectors are not the embedding of the normalised "
+                      "series (%s)" % tag, E, wantE)
+                continue
+            D = _metric_dist(np.asarray(rp.embedding), metric)
+            R = np.asarray(rp.recurrence_matrix())
+            if variant == "threshold":
+                t = par["threshold"]
+                judged = np.abs(D - t) > 1e-5
+                exp = (D < t).astype(int)
+                if R.shape != exp.shape or (R != exp)[judged].any():
+                    acc.v("%s.recurrence_matrix:value:normalize:%s" % (
+                        cls, variant), "R is not the thresholded distance "
+                        "matrix of the normalised states (%s, %s)" % (
+                            tag, metric), R, exp)
+            elif variant == "recurrence_rate":
+                # R = D < eps for ONE eps, and the rate is the request up to
+                # the pairs tied at eps
+                inside = D[R.astype(bool)]
+                outside = D[~R.astype(bool)]
+                if inside.size and outside.size and \
+                        inside.max() > outside.min() + 1e-5:
+                    acc.v("%s.recurrence_matrix:value:normalize:%s" % (
+                        cls, variant), "R is not a threshold cut of the "
+                        "distances of the normalised states (%s, %s)" % (
+                            tag, metric), float(inside.max()),
+                        float(outside.min()))
+            else:
+                for i in range(len(R)):
+                    ins = D[i][R[i].astype(bool)]
+                    out = D[i][~R[i].astype(bool)]
+                    if ins.size and out.size and ins.max() > out.min() + 1e-5:
+                        acc.v("%s.recurrence_matrix:value:normalize:%s" % (
+                            cls, variant), "row %d of R is not a threshold "
+                            "cut of the distances (%s, %s)" % (i, tag, metric),
+                            float(ins.max()), float(out.min()))
+                        break
+            acc.see(R.tolist())
+            if cls == "RecurrenceNetwork":
+                A = np.asarray(rp.adjacency)
+                expA = R - np.eye(len(R), dtype=R.dtype)
+                if A.shape != expA.shape or not np.array_equal(A, expA):
+                    acc.v("RecurrenceNetwork.adjacency:value:normalize",
+                          "adjacency is not R without its diagonal", A, expA)
+    return acc.result(False)
+
+
 FAMILIES = {"rp": fam_rp, "cross": fam_cross, "joint": fam_joint,
-            "isrn": fam_isrn, "scale": fam_scale}
+            "isrn": fam_isrn, "scale": fam_scale, "normalize": fam_normalize}
 
 
 # --------------------------------------------------------------------------
@@ -1517,6 +1641,13 @@ def run(ctx):
         ctx.explore("joint", jc, desc="JointRecurrencePlot/Network with lag")
     if not only or "isrn" in only:
         ctx.explore("isrn", ic, desc="InterSystemRecurrenceNetwork")
+    if not only or "normalize" in only:
+        nc = [[nm, emb, met] for nm in NORM_SERIES
+              for emb in ([None, [2, 1], [3, 2]] if nm in ("scalar", "offset")
+                          else [None])
+              for met in METRICS]
+        ctx.explore("normalize", nc, chunk=1, desc="normalize=True: stored "
+                    "series, state vectors and R of plots and networks")
     sc = _scale_cases(thorough)
     if not only or "scale" in only:
         ctx.explore("scale", sc, chunk=1, desc="130..300 state vectors: "
